@@ -71,6 +71,23 @@ theorem specRows_row (S : Sys σ ι α) (T : Tol σ ι α β) (N : σ) :
     · exact ⟨j, rfl, rfl⟩
     · exact specRows_row S T N ts (j+1) _ _ row h
 
+/-- the same with the number of the optimiser run made explicit (review addition; `specRows_row` only
+says "some run `k`"): the `i`-th row of the table uses the compensation of run `j + i` -/
+theorem specRows_row_at (S : Sys σ ι α) (T : Tol σ ι α β) (N : σ) :
+    ∀ (trials : List (List Nat)) (j : Nat) (smps : List (Sampler α)) (st : List α) (i : Nat) (row : Row α β),
+      (specRows S T N j smps st trials)[i]? = some row →
+      row.ops = T.evaluate (T.applyCompensators S (j + i) (applyVals S T N row.applied)).1 ∧
+      row.comp = (T.applyCompensators S (j + i) (applyVals S T N row.applied)).2
+  | [], _, _, _, _, _, h => by simp [specRows] at h
+  | t :: ts, j, smps, st, 0, row, h => by
+    simp only [specRows, List.getElem?_cons_zero, Option.some.injEq] at h
+    subst h
+    exact ⟨rfl, rfl⟩
+  | t :: ts, j, smps, st, i + 1, row, h => by
+    simp only [specRows, List.getElem?_cons_succ] at h
+    have := specRows_row_at S T N ts (j + 1) _ _ i row h
+    rwa [show j + 1 + i = j + (i + 1) by omega] at this
+
 /-- the sensitivity table and the Monte-Carlo table (tree version and repaired version) are tables
 of fresh evaluations -/
 theorem sensitivity_rows_fresh (L : F.Lawful) {T : Tol σ ι α β} {N : σ} (hN : F.inv N)
@@ -297,6 +314,51 @@ example (st : List ℝ) (n : Nat) :
     (montecarlo_restores (F := frameP demoLens) (frameP_lawful demoLens) demo_inv demo_wf demo_resp _
       (agree_of_eqv (eqv_refl demo_inv)) n)
 
+/-! ### non-vacuity with a compensator (review addition)
+
+The set-up above has no compensator and an oracle that is never called.  Here: the radius of surface 1
+perturbed by a `RangeSampler`, the thickness behind surface 1 as (scaled) compensator, an
+optimiser whose result depends on the lens it is started on (through the observable prescription),
+two operands. -/
+
+theorem demo_okT : okShape (shapes demoLens) ⟨.thickness, 1⟩ := by
+  show 1 + 1 < (shapes demoLens).length
+  simp [shapes, demoLens]
+
+noncomputable def demoTolC : Tol (Presc ℝ) Var ℝ ℝ :=
+  { perts := [PVar.make prescSys (pertVar ⟨.radius, 1⟩) demoLens],
+    comps := [PVar.make prescSys (compVar ⟨.thickness, 1⟩) demoLens],
+    operands := [fun P => Var.get P ⟨.radius, 1⟩, fun P => Var.get P ⟨.thickness, 1⟩],
+    oracle := fun _ P => [Var.get P ⟨.radius, 1⟩] }
+
+theorem demo_wfC : (frameP demoLens).TolWF demoTolC demoLens := by
+  intro p hp
+  simp only [demoTolC, List.cons_append, List.nil_append, List.mem_cons, List.not_mem_nil, or_false] at hp
+  rcases hp with rfl | rfl
+  · exact ⟨⟨demo_ok, fun _ => rfl⟩, rfl⟩
+  · exact ⟨⟨demo_okT, compVar_roundtrip _⟩, rfl⟩
+
+theorem demo_respC : (frameP demoLens).Resp demoTolC := by
+  refine ⟨?_, fun _ s t h => congrArg (fun x => [x]) (h.2.2.2 ⟨.radius, 1⟩ demo_ok)⟩
+  intro f hf s t h
+  simp only [demoTolC, List.mem_cons, List.not_mem_nil, or_false] at hf
+  rcases hf with rfl | rfl
+  · exact h.2.2.2 ⟨.radius, 1⟩ demo_ok
+  · exact h.2.2.2 ⟨.thickness, 1⟩ demo_okT
+
+/-- with the compensator: the sensitivity table is the table of fresh evaluations and the lens is
+nominal afterwards (all hypotheses of `sensitivity_rows_fresh` / `sensitivity_restores` discharged) -/
+example (st : List ℝ) :
+    (runSA prescSys demoTolC ⟨demoLens, [Sampler.mkRange 40 60 3], st⟩).2 =
+      specRows prescSys demoTolC demoLens 0 [Sampler.mkRange 40 60 3] st
+        (saTrials ([Sampler.mkRange (40:ℝ) 60 3].map Sampler.size)) ∧
+    snapOf (runSA prescSys demoTolC ⟨demoLens, [Sampler.mkRange 40 60 3], st⟩).1.lens = snapOf demoLens :=
+  ⟨sensitivity_rows_fresh (F := frameP demoLens) (frameP_lawful demoLens) demo_inv demo_wfC demo_respC _
+      (agree_of_eqv (eqv_refl demo_inv)),
+   eqv_snap demoLens _ _ (by simp [shapes, demoLens])
+    (sensitivity_restores (F := frameP demoLens) (frameP_lawful demoLens) demo_inv demo_wfC demo_respC _
+      (agree_of_eqv (eqv_refl demo_inv)))⟩
+
 /-! ## finding F-C15-1: index perturbation on a dispersive glass -/
 
 /-- as in the tree: after `reset` of an index perturbation the medium has the nominal index of the
@@ -305,7 +367,8 @@ theorem index_reset_code_loses_dispersion (n1 n2 v : ℝ) (h : n1 ≠ n2) :
     indexReset_code (n1, n2) (indexUpdate (n1, n2) v) n1 ≠ (n1, n2) := by
   simp [indexReset_code, indexUpdate, h]
 
-/-- the reset the property requires -/
+/-- the reset the property requires (`indexReset_spec` is *defined* as "return the nominal medium":
+this is `rfl` and only names the requirement) -/
 theorem index_reset_spec_restores (n1 n2 v : ℝ) :
     indexReset_spec (n1, n2) (indexUpdate (n1, n2) v) n1 = (n1, n2) := rfl
 
